@@ -54,14 +54,14 @@ Lemma gstep_inv : forall c g ev g' r, gstep c g ev = Some (g', r) ->
   (r = None /\ (nodes g' = nodes g \/ exists n, ev = EKill n /\ nodes g' = adel n (nodes g))) \/
   (exists x pre s, r = Some (x, s) /\ nstep c g ev x pre s /\ nodes g' = aset x (nd s) (nodes g)).
 Proof.
-  intros c g ev g' r H. destruct ev; cbn in H.
+  intros c g ev g' r H. destruct ev; cbn [gstep] in H.
   - destruct (aget n (nodes g)) eqn:E; inversion H; subst. right.
     eexists _, _, _. split; [reflexivity|]. split; [constructor; exact E | apply nodes_finish].
   - destruct (aget b (nodes g)) eqn:E; [|discriminate].
     destruct (chan_get a b g) eqn:E2; inversion H; subst. right.
     eexists _, _, _. split; [reflexivity|]. split; [econstructor; eauto | rewrite nodes_finish; reflexivity].
   - destruct (aget a (nodes g)) eqn:E; inversion H; subst. right.
-    eexists _, _, _. split; [reflexivity|]. split; [apply NDrop; exact E | reflexivity].
+    eexists _, _, _. split; [reflexivity|]. split; [apply NDrop; exact E | rewrite nodes_chan_set, nodes_finish; reflexivity].
   - inversion H; subst. left. split; [reflexivity | left; reflexivity].
   - destruct (aget a (nodes g)) eqn:E; inversion H; subst. right.
     eexists _, _, _. split; [reflexivity|]. split; [constructor; exact E|].
@@ -144,3 +144,175 @@ Definition any_event (ev : event) : Prop := True.
 Definition reachable := reachable_by any_event.
 
 Definition conf_period_ok (c : conf) : Prop := (0 <= period c)%Z.
+
+(* ================= self is stable ================= *)
+Lemma env_period_ok : forall c now rnd bud ord sl, conf_period_ok c -> period_ok (mk_env c now rnd bud ord sl).
+Proof. intros; exact H. Qed.
+
+Lemma nstep_pre : forall c g ev x n s, nstep c g ev x (Some n) s -> aget x (nodes g) = Some n.
+Proof. intros c g ev x n s H; inversion H; subst; assumption. Qed.
+
+Lemma nstep_fresh : forall c g ev x s, nstep c g ev x None s ->
+  exists oth now rnd sv, ev = ERestart x oth now rnd sv /\ s = idle_S (restart_node c g x oth now rnd sv).
+Proof. intros c g ev x s H; inversion H; subst. eauto 6. Qed.
+
+Lemma core_on_connected : forall x n, core (on_connected x n) = core n.
+Proof. intros; unfold on_connected; destruct (RO_BASE <=? x); reflexivity. Qed.
+
+Lemma core_on_disconnected : forall x n, core (on_disconnected x n) = core n.
+Proof. intros; unfold on_disconnected; destruct (RO_BASE <=? x); reflexivity. Qed.
+
+Lemma fr_api_submit : forall e cm cbk n, fr true (start_S e n) (api_submit e cm cbk n).
+Proof. intros; unfold api_submit; apply fr_submit. Qed.
+
+Lemma fr_api_admin : forall e cm cbk n, fr true (start_S e n) (api_admin e cm cbk n).
+Proof. intros; unfold api_admin; cbv zeta. destruct (dyn (cf e)); [apply fr_submit | apply fr_raise]. Qed.
+
+Lemma fr_api_setver : forall e cm cbk n, fr true (start_S e n) (api_setver e cm cbk n).
+Proof. intros; unfold api_setver; cbv zeta. destruct (_ || _); [apply fr_raise | apply fr_submit]. Qed.
+
+Theorem self_stable_step : forall c g ev x n s,
+  conf_period_ok c -> nstep c g ev x (Some n) s -> self (nd s) = self n.
+Proof.
+  intros c g ev x n s Hp H. inversion H; subst.
+  - apply (frs_on_tick (mk_env c now rnd bud ord sl) n Hp).
+  - apply (frs_on_message (mk_env c now rnd DEFAULT_BUDGET ord 0) a m n Hp).
+  - cbn. destruct (core_fields _ _ (core_on_disconnected b n)) as (A & _); exact A.
+  - cbn. destruct (core_fields _ _ (core_on_connected b n)) as (A & _); exact A.
+  - destruct (core_fields _ _ (fr_core _ _ _ (fr_api_submit (mk_env c 0 0 DEFAULT_BUDGET [] 0) cm (cb_of cb) n))) as (A & _); exact A.
+  - destruct (core_fields _ _ (fr_core _ _ _ (fr_api_admin (mk_env c 0 0 DEFAULT_BUDGET [] 0) cm (cb_of cb) n))) as (A & _); exact A.
+  - destruct (core_fields _ _ (fr_core _ _ _ (fr_api_setver (mk_env c 0 0 DEFAULT_BUDGET [] 0) cm (cb_of cb) n))) as (A & _); exact A.
+  - reflexivity.
+Qed.
+
+Theorem C18_self_stable_thm : forall c g ev g' x s n,
+  (0 <= period c)%Z ->
+  gstep c g ev = Some (g', Some (x, s)) -> aget x (nodes g) = Some n ->
+  (forall oth now rnd sv, ev <> ERestart x oth now rnd sv) ->
+  self (nd s) = self n /\ aget x (nodes g') = Some (nd s).
+Proof.
+  intros c g ev g' x s n Hp H Hx Hev.
+  destruct (gstep_inv _ _ _ _ _ H) as [[E _] | (x' & pre & s' & E & Hn & En)]; [discriminate|].
+  inversion E; subst x' s'. split.
+  - destruct pre as [n'|].
+    + pose proof (nstep_pre _ _ _ _ _ _ Hn) as Hx'. rewrite Hx in Hx'. inversion Hx'; subst n'.
+      eapply self_stable_step; eauto.
+    + destruct (nstep_fresh _ _ _ _ _ Hn) as (oth & now & rnd & sv & Eev & _). exfalso; eapply Hev; eauto.
+  - rewrite En. apply aget_aset_same.
+Qed.
+
+(* ================= the silent follower ================= *)
+Lemma ro_step : forall c g ev x n s,
+  conf_period_ok c -> nstep c g ev x (Some n) s -> ro_inv n ->
+  ro_inv (nd s) /\ Forall benign (outs s) /\
+  (term (nd s) = term n \/
+   exists a now rnd ord m rest t, ev = EDeliver a x now rnd ord /\ chan_get a x g = m :: rest /\
+                                  ae_term m = Some t /\ term n < t /\ term (nd s) = t).
+Proof.
+  intros c g ev x n s Hp H Hro. inversion H; subst.
+  - destruct (ro_on_tick (mk_env c now rnd bud ord sl) n Hp Hro) as (A & B & C). auto.
+  - destruct (ro_on_message (mk_env c now rnd DEFAULT_BUDGET ord 0) a m n Hp Hro) as (A & B & C).
+    split; [exact A|]. split; [exact B|]. destruct C as [C | (t & C1 & C2 & C3)]; [left; exact C|].
+    right. exists a, now, rnd, ord, m, rest, t. auto.
+  - cbn. split; [eapply ro_inv_core; [apply core_on_disconnected | exact Hro]|]. split; [constructor|].
+    left. destruct (core_fields _ _ (core_on_disconnected b n)) as (_ & _ & A & _); exact A.
+  - cbn. split; [eapply ro_inv_core; [apply core_on_connected | exact Hro]|]. split; [constructor|].
+    left. destruct (core_fields _ _ (core_on_connected b n)) as (_ & _ & A & _); exact A.
+  - pose proof (fr_api_submit (mk_env c 0 0 DEFAULT_BUDGET [] 0) cm (cb_of cb) n) as F.
+    split; [eapply fr_ro; eauto|]. split; [eapply fr_start_benign; eauto | left; apply (fr_term _ _ _ F)].
+  - pose proof (fr_api_admin (mk_env c 0 0 DEFAULT_BUDGET [] 0) cm (cb_of cb) n) as F.
+    split; [eapply fr_ro; eauto|]. split; [eapply fr_start_benign; eauto | left; apply (fr_term _ _ _ F)].
+  - pose proof (fr_api_setver (mk_env c 0 0 DEFAULT_BUDGET [] 0) cm (cb_of cb) n) as F.
+    split; [eapply fr_ro; eauto|]. split; [eapply fr_start_benign; eauto | left; apply (fr_term _ _ _ F)].
+  - cbn. split; [exact Hro|]. split; [constructor | left; reflexivity].
+Qed.
+
+Lemma ro_restart : forall c g x oth now rnd sv,
+  self (restart_node c g x oth now rnd sv) = None -> ro_inv (restart_node c g x oth now rnd sv).
+Proof.
+  intros c g x oth now rnd sv. unfold restart_node; cbv zeta.
+  destruct (RO_BASE <=? x).
+  - destruct (aget x (disks g)); intros _; repeat split.
+  - destruct (aget x (disks g)) as [d|]; [|cbn; discriminate].
+    unfold init_from_disk; cbv zeta. destruct (d_log d); cbn; discriminate.
+Qed.
+
+Definition ro_state_inv : gstate -> Prop := all_nodes (fun _ n => self n = None -> ro_inv n).
+
+Lemma ro_state_inv_step : forall c g ev g' r,
+  conf_period_ok c -> ro_state_inv g -> gstep c g ev = Some (g', r) -> ro_state_inv g'.
+Proof.
+  intros c g ev g' r Hp HI H. eapply all_nodes_step; [exact HI | exact H|].
+  intros x pre s Hn Hself. destruct pre as [n|].
+  - pose proof (self_stable_step _ _ _ _ _ _ Hp Hn) as E.
+    assert (ro_inv n) as Hro by (eapply (all_nodes_pre _ _ _ _ _ _ _ HI Hn); congruence).
+    apply (ro_step _ _ _ _ _ _ Hp Hn Hro).
+  - destruct (nstep_fresh _ _ _ _ _ Hn) as (oth & now & rnd & sv & _ & ->). cbn in *.
+    apply ro_restart; exact Hself.
+Qed.
+
+Lemma ro_state_inv_reachable : forall c g, conf_period_ok c -> reachable c g -> ro_state_inv g.
+Proof.
+  intros c g Hp Hr. eapply reachable_inv with (P := ro_state_inv); [| |exact Hr].
+  - intros x n [].
+  - intros g0 ev g' r HI _ H. eapply ro_state_inv_step; eauto.
+Qed.
+
+(* what a step of a node that ends without own address looks like *)
+Lemma ro_step_full : forall c g ev g' x s,
+  conf_period_ok c -> reachable c g -> gstep c g ev = Some (g', Some (x, s)) -> self (nd s) = None ->
+  ro_inv (nd s) /\ Forall benign (outs s) /\
+  (forall n, aget x (nodes g) = Some n -> (forall oth now rnd sv, ev <> ERestart x oth now rnd sv) ->
+     self n = None /\
+     (term (nd s) = term n \/
+      exists a now rnd ord m rest t, ev = EDeliver a x now rnd ord /\ chan_get a x g = m :: rest /\
+                                     ae_term m = Some t /\ term n < t /\ term (nd s) = t)).
+Proof.
+  intros c g ev g' x s Hp Hr H Hself.
+  pose proof (ro_state_inv_reachable _ _ Hp Hr) as HI.
+  destruct (gstep_inv _ _ _ _ _ H) as [[E _] | (x' & pre & s' & E & Hn & En)]; [discriminate|].
+  inversion E; subst x' s'. destruct pre as [n|].
+  - pose proof (self_stable_step _ _ _ _ _ _ Hp Hn) as Es.
+    assert (ro_inv n) as Hro by (eapply (all_nodes_pre _ _ _ _ _ _ _ HI Hn); congruence).
+    destruct (ro_step _ _ _ _ _ _ Hp Hn Hro) as (A & B & C).
+    split; [exact A|]. split; [exact B|]. intros n' Hx _.
+    pose proof (nstep_pre _ _ _ _ _ _ Hn) as Hx'. rewrite Hx in Hx'. inversion Hx'; subst n'.
+    split; [congruence | exact C].
+  - destruct (nstep_fresh _ _ _ _ _ Hn) as (oth & now & rnd & sv & Eev & ->). cbn in *.
+    split; [apply ro_restart; exact Hself|]. split; [constructor|].
+    intros n _ Hev. exfalso; eapply Hev; eauto.
+Qed.
+
+Theorem C18_never_candidate_or_leader_thm : forall c g,
+  (0 <= period c)%Z -> reachable c g ->
+  (forall x n, aget x (nodes g) = Some n -> self n = None -> role n = FOLLOWER) /\
+  (forall ev g' x s, gstep c g ev = Some (g', Some (x, s)) -> self (nd s) = None ->
+     role (nd s) = FOLLOWER /\ forall a b, ~ In (Role a b) (outs s)).
+Proof.
+  intros c g Hp Hr. split.
+  - intros x n Hx Hs. apply (ro_state_inv_reachable _ _ Hp Hr x n (aget_In _ _ _ Hx) Hs).
+  - intros ev g' x s H Hs. destruct (ro_step_full _ _ _ _ _ _ Hp Hr H Hs) as ((_ & R & _) & B & _).
+    split; [exact R|]. intros a b Hin. rewrite Forall_forall in B. apply (B _ Hin).
+Qed.
+
+Theorem C18_never_votes_thm : forall c g ev g' x s,
+  (0 <= period c)%Z -> reachable c g -> gstep c g ev = Some (g', Some (x, s)) -> self (nd s) = None ->
+  (forall d t lli llt, ~ In (Send d (RequestVote t lli llt)) (outs s)) /\
+  (forall d t, ~ In (Send d (ResponseVote t)) (outs s)) /\
+  voted (nd s) = None /\ votes (nd s) = 0 /\
+  (forall n, aget x (nodes g) = Some n -> (forall oth now rnd sv, ev <> ERestart x oth now rnd sv) ->
+     voted n = None /\ votes n = 0 /\
+     (term (nd s) = term n \/
+      exists a now rnd ord m rest t, ev = EDeliver a x now rnd ord /\ chan_get a x g = m :: rest /\
+                                     ae_term m = Some t /\ term n < t /\ term (nd s) = t)).
+Proof.
+  intros c g ev g' x s Hp Hr H Hs.
+  destruct (ro_step_full _ _ _ _ _ _ Hp Hr H Hs) as ((_ & _ & V1 & V2) & B & C).
+  rewrite Forall_forall in B.
+  split; [intros d t lli llt Hin; apply (B _ Hin)|].
+  split; [intros d t Hin; apply (B _ Hin)|].
+  split; [exact V1|]. split; [exact V2|].
+  intros n Hx Hev. destruct (C n Hx Hev) as (Sn & T).
+  pose proof (ro_state_inv_reachable _ _ Hp Hr x n (aget_In _ _ _ Hx) Sn) as (_ & _ & W1 & W2).
+  auto.
+Qed.
